@@ -352,6 +352,12 @@ def policy_catalogue():
                       ('retry_break_false_err', {'count': 2, 'delay': 0, 'break-on': False}, ['err', 'err', 'ok']),
                       ('retry_cont_true_break_true', {'count': 2, 'delay': 0, 'continue-on': True, 'break-on': True}, ['ok', 'err', 'ok'])):
         out.append((nm, prog(['a', 'z'], {'a': {'retry': r, 'succ': [{'to': 'z'}], 'err': [{'to': 'z'}]}, 'z': {}}, {'a': oc})))
+    # pause-before (alone / with wait-before and timeout): the execution pauses before the task, the operator resumes it;
+    # fail-on (alone / with retry)
+    out.append(('pause_before_plain', prog(['a', 'b'], {'a': {'succ': [{'to': 'b'}]}, 'b': {'pause-before': True}}, {})))
+    out.append(('pause_before_wait_timeout', prog(['a', 'b'], {'a': {'pause-before': True, 'wait-before': 1, 'timeout': 3, 'succ': [{'to': 'b'}]}, 'b': {}}, {})))
+    out.append(('fail_on_plain', prog(['a', 'b'], {'a': {'fail-on': True, 'succ': [{'to': 'b'}], 'err': [{'to': 'b'}]}, 'b': {}}, {})))
+    out.append(('fail_on_retry', prog(['a', 'b'], {'a': {'fail-on': True, 'retry': {'count': 1, 'delay': 0}, 'succ': [{'to': 'b'}]}, 'b': {}}, {'a': ['ok', 'ok']})))
     out.append(('wait_before_timeout_late', prog(['a', 'b'], {'a': {'wait-before': 2, 'timeout': 3, 'succ': [{'to': 'b'}]}, 'b': {}}, {})))
     out.append(('wait_before_timeout_early', prog(['a', 'b'], {'a': {'wait-before': 3, 'timeout': 2, 'succ': [{'to': 'b'}], 'err': [{'to': 'b'}]}, 'b': {}}, {})))
     out.append(('wait_after_ok', prog(['a', 'b'], {'a': {'wait-after': 2, 'succ': [{'to': 'b'}]}, 'b': {}}, {})))
